@@ -242,7 +242,17 @@ def run(case, ctx):
             ctx.violate("C06/pairs", f"(rule, failing path) pairs differ from the model: extra "
                         f"{sorted(pairs_t - mp)[:3]}, missing {sorted(mp - pairs_t)[:3]}")
         observed.append((agg, frozenset(pairs_t)))
+        import contextlib
+        import io as _io
+        buf = _io.StringIO()
+        with contextlib.redirect_stdout(buf):
+            okp, pr = call(vd.print_failures)
+        ctx.count("entry:print_failures")
         ok, s = call(vd.get_failures_string)
+        if not okp:
+            ctx.violate(f"C06/{pr.key()}/report", f"print_failures raised {pr!r}")
+        elif ok and isinstance(s, str) and buf.getvalue().rstrip("\n") != s.rstrip("\n"):
+            ctx.violate("C06/report:print-differs", f"print_failures() printed something else than get_failures_string() returns")
         if not ok:
             ctx.violate(f"C06/{s.key()}/report", f"get_failures_string raised {s!r}")
         elif not isinstance(s, str):
